@@ -518,6 +518,14 @@ impl<'a> Format4SegmentComputer<'a> {
 }
 
 impl Cmap4 {
+    fn validate_length(&self, ctx: &mut ValidationCtx) {
+        // the subtable length is a u16: 8 fixed fields, 4 per segment, plus the glyph ids
+        let len = (8 + 4 * self.end_code.len() + self.glyph_id_array.len()) * u16::RAW_BYTE_LEN;
+        if len > u16::MAX as usize {
+            ctx.report("cmap format 4 subtable exceeds max length");
+        }
+    }
+
     fn compute_length(&self) -> u16 {
         // https://learn.microsoft.com/en-us/typography/opentype/spec/cmap#format-4-segment-mapping-to-delta-values
         // there are always 8 u16 fields
